@@ -92,7 +92,7 @@ JSON JSON::parse(StringReader& r, bool disable_extensions) {
 
   } else if (root_type_ch == '-' || root_type_ch == '+' || isdigit(root_type_ch)) {
     int64_t int_data;
-    double float_data;
+    double float_data = 0.0;
     bool is_int = true;
 
     bool negative = false;
@@ -111,15 +111,28 @@ JSON JSON::parse(StringReader& r, bool disable_extensions) {
       while (!r.eof() && isxdigit(r.get_s8(false))) {
         int_data = (int_data << 4) | value_for_hex_char(r.get_s8());
       }
+      if (negative) {
+        int_data = -int_data;
+      }
 
     } else { // decimal
+      // The integer value is accumulated with its sign (so that INT64_MIN is
+      // representable) and the magnitude is accumulated as a float in
+      // parallel; if the integer doesn't fit in an int64_t, the number is
+      // returned as a float
       int_data = 0;
       while (!r.eof() && isdigit(r.get_s8(false))) {
-        int_data = int_data * 10 + (r.get_s8() - '0');
+        int64_t digit = r.get_s8() - '0';
+        float_data = float_data * 10 + digit;
+        if (__builtin_mul_overflow(int_data, 10, &int_data) ||
+            (negative
+                    ? __builtin_sub_overflow(int_data, digit, &int_data)
+                    : __builtin_add_overflow(int_data, digit, &int_data))) {
+          is_int = false;
+        }
       }
 
       double this_place = 0.1;
-      float_data = int_data;
       if (!r.eof() && r.get_s8(false) == '.') {
         is_int = false;
         r.get_s8();
@@ -162,7 +175,6 @@ JSON JSON::parse(StringReader& r, bool disable_extensions) {
     }
 
     if (negative) {
-      int_data = -int_data;
       float_data = -float_data;
     }
 
